@@ -16,6 +16,7 @@ import torch
 
 from vf import env, zoo
 from vf.result import R
+from vf.monitors import writewatch as ww
 
 RULE = ("case = (coupling class, mask pattern [exhaustive over non-trivial subsets of 2..5 features] with numeric values, "
         "2-D / image, context, tails/unconditional flags, parameter policy); evaluations = bitwise comparisons performed; "
@@ -94,6 +95,12 @@ def run_case(case):
     x = zoo.sample_inputs(me, B, case["seed"] + 1, structured="many")
     ctx = zoo.sample_context(me, B, case["seed"] + 2)
     uncond = bool(cfg.get("uncond"))
+    if I and not uncond:
+        # bit patterns that arithmetic "copies" do not preserve: -0.0 (x + 0.0, index_add_ onto zeros), a denormal
+        # (flushed by some kernels); row 1 only - row 0 carries the perturbation experiments
+        tiny = 5e-324 if x.dtype == torch.float64 else 1e-45
+        x[(1, I[0]) + (0,) * (x.dim() - 2)] = -0.0
+        x[(2, I[-1]) + (0,) * (x.dim() - 2)] = tiny
     g = torch.Generator().manual_seed(case["seed"] + 3)
     patt = "".join("T" if i in T else "I" for i in range(D))
     for direction in ("forward", "inverse"):
@@ -115,8 +122,8 @@ def run_case(case):
         r.ev()
         r.count("identity_bitwise_checks")
         if not uncond:
-            if not torch.equal(out[:, I], z[:, I]):
-                bad = [i for i in I if not torch.equal(out[:, i], z[:, i])]
+            if not ww.same_bits(out[:, I].detach(), z[:, I]):
+                bad = [i for i in I if not ww.same_bits(out[:, i].detach(), z[:, i])]
                 r.viol("identity_changed", "%s identity features are not returned bit-for-bit" % fam, direction=direction,
                        mask=mask, features_changed=bad, max_diff=float((out[:, I] - z[:, I]).abs().max()), cfg=cfg)
         else:
